@@ -30,6 +30,7 @@ import Driver.SrcChk
 import Driver.BlockChk
 import Driver.EventChk
 import Driver.RefChk
+import DispatchVerif.Core.BlockCnt
 /-! `dvdriver`: line-protocol driver over the Lean models — the same definitions the theorems are about.
     One operation per line in, one canonical result per line out; the C harnesses answer the same lines with
     the real library and the check diffs the two streams. -/
@@ -261,6 +262,10 @@ def handle (line : String) : String :=
     match w.toNat?, nu.toNat?, nm.toNat?, nw.toNat? with
     | some w, some a, some b, some c => toString (TimeP.sinceEpoch w a b c)
     | _, _, _, _ => "bad-op"
+  | ["BPW", pre, set, post] =>      -- a block object executed `pre` times, the counter word optionally set, `post` more executions
+    match pre.toNat?, post.toNat? with
+    | some a, some c => BlockCnt.answer a (if set = "-" then none else set.toNat?) c
+    | _, _ => "bad-op"
   | ["X2", fi, fo, spec] => transform fi fo spec
   | "X" :: toks => runData toks
   | "IO" :: len :: low :: high :: rets => runIo (optNat len) (optNat low) (optNat high) (rets.map (·.toInt!))
